@@ -4,6 +4,7 @@ package db
 
 import (
 	"context"
+	"time"
 
 	"github.com/couchbase/sync_gateway/base"
 )
@@ -156,4 +157,116 @@ func VHarness_C17_AddOps() {
 			vAssert(!p, "Add*: only the named sequence becomes processed")
 		}
 	}
+}
+
+// ---- histories of replicator notifications, with the replicator being closed at an arbitrary point
+
+type vhCancelCtx struct{ done chan struct{} }
+
+func (c *vhCancelCtx) Deadline() (time.Time, bool) { return time.Time{}, false }
+func (c *vhCancelCtx) Done() <-chan struct{}       { return c.done }
+func (c *vhCancelCtx) Err() error                  { return nil }
+func (c *vhCancelCtx) Value(key any) any           { return nil }
+
+type vhTold struct {
+	seq  SequenceID
+	key  IDAndRev
+	done bool // already known to the peer, or its revision was acknowledged
+	want bool // the revision was requested / sent and an acknowledgement is awaited
+}
+
+// VHarness_C17_History: the notifications a push or pull replication delivers to its checkpointer - batches of
+// announced changes in feed order (each either already known or requested), acknowledgements of requested revisions,
+// checkpoints - with the replicator's context cancelled at an arbitrary point (notifications keep arriving until the
+// connection is torn down, and a final checkpoint is taken after the cancellation). Whatever the checkpointer computes as
+// the position to persist never lies at or beyond a change that was announced and is neither known nor acknowledged.
+func VHarness_C17_History() {
+	ctx := &vhCancelCtx{done: make(chan struct{})}
+	c := &Checkpointer{
+		ctx:            ctx,
+		processedSeqs:  make(map[SequenceID]struct{}),
+		idAndRevLookup: make(map[IDAndRev]SequenceID),
+		stats: CheckpointerStats{
+			ProcessedSequenceLen:            &base.SgwIntStat{},
+			ProcessedSequenceLenPostCleanup: &base.SgwIntStat{},
+			ExpectedSequenceLen:             &base.SgwIntStat{},
+			ExpectedSequenceLenPostCleanup:  &base.SgwIntStat{},
+		},
+	}
+	c.expectedSeqCompactionThreshold = vNondetRange(0, 2)
+	pull := vNondetBool()
+	base0 := vNondetU64()
+	vAssume(base0 >= 1 && base0 < 1<<62)
+	var told []*vhTold
+	next := uint64(0)
+	cancelled := false
+	var last *SequenceID
+	docIDs := "abcdefghijklmnop"
+	checkpoint := func(tag string) {
+		safe := c._updateCheckpointLists()
+		if safe == nil {
+			return
+		}
+		vCover("history-checkpoint")
+		for _, t := range told {
+			if !t.done {
+				vAssert(safe.Before(t.seq), tag+": the checkpoint lies before every announced change that is neither known nor acknowledged")
+			}
+		}
+		if last != nil {
+			vAssert(!safe.Before(*last), tag+": checkpoints do not move backwards")
+		}
+		s := *safe
+		last = &s
+	}
+	k := vParam("events", 3)
+	for ev := 0; ev < k; ev++ {
+		switch vNondetRange(0, 3) {
+		case 0: // a batch of two announced changes, in feed order
+			var known []SequenceID
+			var wanted []SequenceID
+			wantedMap := map[IDAndRev]SequenceID{}
+			for j := 0; j < 2; j++ {
+				t := &vhTold{seq: SequenceID{Seq: base0 + next}, key: IDAndRev{DocID: docIDs[next : next+1], RevID: "1-a"}}
+				next++
+				if vNondetBool() {
+					t.done = true
+					known = append(known, t.seq)
+				} else {
+					t.want = true
+					wanted = append(wanted, t.seq)
+					wantedMap[t.key] = t.seq
+				}
+				told = append(told, t)
+			}
+			if pull {
+				c.AddExpectedSeqIDAndRevs(wantedMap)
+				c.AddAlreadyKnownSeq(known...)
+			} else {
+				c.AddAlreadyKnownSeq(known...)
+				c.AddExpectedSeqs(wanted...)
+			}
+		case 1: // a requested revision is acknowledged
+			if len(told) == 0 {
+				vAssume(false)
+			}
+			i := vNondetRange(0, len(told)-1)
+			t := told[i]
+			vAssume(t.want && !t.done)
+			t.done = true
+			if pull {
+				c.AddProcessedSeqIDAndRev(nil, t.key)
+			} else {
+				c.AddProcessedSeq(t.seq)
+			}
+		case 2: // the replicator is closed
+			vAssume(!cancelled)
+			cancelled = true
+			close(ctx.done)
+			vCover("history-cancelled")
+		case 3:
+			checkpoint("checkpoint")
+		}
+	}
+	checkpoint("final checkpoint")
 }
